@@ -102,8 +102,12 @@ class recording(object):
 
 
 def attempt(fn):
+    from harness import common
     try:
-        return {"ok": fn()}
+        with common.cpu_limit(10):      # a call takes milliseconds
+            return {"ok": fn()}
+    except common.ImplHang as e:
+        return {"err": "DidNotReturn", "msg": str(e)}
     except Exception as e:      # noqa - every exception type is part of the observation
         return {"err": type(e).__name__}
 
@@ -375,7 +379,10 @@ def eval_cases(ctx, cases):
                         name, replies[off + res["valid_req"]].get("why"), sorted(res["ok"].items())[:30]))
             else:
                 ctx.tag("orders:%s:%s" % (name, res["err"]))
-                if res["err"] not in ("InsufficientResourceError", "InvalidConstraintError"):
+                if res["err"] == "DidNotReturn":
+                    bad[name] = ("did-not-return", "%s did not return: %s (the model of the sequential placer terminates on "
+                                 "every input)" % (name, res.get("msg")))
+                elif res["err"] not in ("InsufficientResourceError", "InvalidConstraintError"):
                     if closed:
                         bad[name] = ("%s-raises-%s" % (name, res["err"]),
                                      "%s raised %s on a unit-demand problem without constraints" % (name, res["err"]))
